@@ -25,6 +25,7 @@ import (
 	"go/token"
 	"os"
 	"path/filepath"
+	"regexp"
 	"strings"
 
 	"veriftranslate/gocanon"
@@ -174,30 +175,59 @@ type ctxT struct {
 	owner     string
 }
 
-// isGuardIf: `if e, ok := rm.table[v.ID()]; ok && e.<owner> != p { (log)* <exit> }` where exit is
-// `continue` (loop level) or `continue`/`break` (inside a case).
-func isGuardIf(s ast.Stmt, c *ctxT, inCase bool) bool {
+type guardT struct{ lhs, rhs string }
+
+func (g *guardT) lean() string {
+	if g == nil {
+		return "none"
+	}
+	return fmt.Sprintf("some { key := .requestId, lhs := %s, rhs := %s }", g.lhs, g.rhs)
+}
+
+// peerTerm classifies an operand of a guard comparison: the peer field of the looked-up entry or the
+// sender parameter; anything else is fatal.
+func peerTerm(e ast.Expr, entryVar, owner, sender string, at token.Pos) string {
+	switch s := p.Src(e); s {
+	case entryVar + "." + owner:
+		return ".entryPeer"
+	case sender:
+		return ".sender"
+	default:
+		p.Die(at, "guard compares %q: neither the entry's peer field %s.%s nor the sender %s", s, entryVar, owner, sender)
+	}
+	return ""
+}
+
+// isGuardIf: `if e, ok := rm.table[v.ID()]; ok && <A> != <B> { (log)* <exit> }` where A, B are the
+// entry's peer field or the sender, and exit is `continue` (loop level) or `continue`/`break` (inside
+// a case).  Returns the comparison as terms; nil if s is not an if-statement with such an initialiser.
+func isGuardIf(s ast.Stmt, c *ctxT, inCase bool) *guardT {
 	ifs, ok := s.(*ast.IfStmt)
 	if !ok {
-		return false
+		return nil
 	}
 	as, ok := ifs.Init.(*ast.AssignStmt)
 	if !ok || as.Tok != token.DEFINE || len(as.Lhs) != 2 || len(as.Rhs) != 1 {
-		return false
+		return nil
 	}
 	e, ok1 := as.Lhs[0].(*ast.Ident)
 	okv, ok2 := as.Lhs[1].(*ast.Ident)
 	if !ok1 || !ok2 {
-		return false
+		return nil
 	}
 	want := c.recv.Name + "." + table + "[" + c.loopVar.Name + ".ID()]"
 	if p.Src(as.Rhs[0]) != want {
-		p.Die(s.Pos(), "if-statement in the dispatch loop with an unknown initialiser: %s", p.Src(as))
+		p.Die(s.Pos(), "guard looks up %s instead of %s", p.Src(as.Rhs[0]), want)
 	}
-	cond := p.Src(ifs.Cond)
-	if cond != okv.Name+" && "+e.Name+"."+c.owner+" != "+c.peerParam.Name {
-		p.Die(s.Pos(), "guard condition %q is not `%s && %s.%s != %s`", cond, okv.Name, e.Name, c.owner, c.peerParam.Name)
+	and, ok := ifs.Cond.(*ast.BinaryExpr)
+	if !ok || and.Op != token.LAND || p.Src(and.X) != okv.Name {
+		p.Die(s.Pos(), "guard condition %q is not `%s && <peer> != <peer>`", p.Src(ifs.Cond), okv.Name)
 	}
+	cmp, ok := and.Y.(*ast.BinaryExpr)
+	if !ok || cmp.Op != token.NEQ {
+		p.Die(s.Pos(), "guard condition %q is not `%s && <peer> != <peer>`", p.Src(ifs.Cond), okv.Name)
+	}
+	g := &guardT{peerTerm(cmp.X, e.Name, c.owner, c.peerParam.Name, s.Pos()), peerTerm(cmp.Y, e.Name, c.owner, c.peerParam.Name, s.Pos())}
 	if ifs.Else != nil {
 		p.Die(s.Pos(), "guard with an else branch")
 	}
@@ -214,12 +244,12 @@ func isGuardIf(s ast.Stmt, c *ctxT, inCase bool) bool {
 	if !ok || br.Label != nil || !(br.Tok == token.CONTINUE || (inCase && br.Tok == token.BREAK)) {
 		p.Die(s.Pos(), "guard body must only skip the request: %s", p.Src(ifs.Body))
 	}
-	return true
+	return g
 }
 
 type caseInfo struct {
 	typ, handlerName, handlerClass string
-	caseGuard, handlerGuard        bool
+	caseGuard, handlerGuard        *guardT
 	keyExpr                        string
 }
 
@@ -249,7 +279,7 @@ func classifyHandler(fd *ast.FuncDecl) string {
 // handlerGuard: does the handler compare the stored peer with a peer.ID parameter right after its
 // table lookup (`e, ok := rm.table[k]; if !ok || e.<owner> != pp … { return … }`)?  Any other use of
 // a comparison on the owner field is fatal.  Returns the index of that parameter or -1.
-func handlerGuard(fd *ast.FuncDecl, owner string) int {
+func handlerGuard(fd *ast.FuncDecl, owner string) (int, *guardT) {
 	guardParam := -1
 	var cmp []*ast.BinaryExpr
 	ast.Inspect(fd.Body, func(n ast.Node) bool {
@@ -265,7 +295,7 @@ func handlerGuard(fd *ast.FuncDecl, owner string) int {
 		return true
 	})
 	if len(cmp) == 0 {
-		return -1
+		return -1, nil
 	}
 	if len(cmp) > 1 {
 		p.Die(fd.Pos(), "%s: several comparisons on the peer field", fd.Name.Name)
@@ -304,7 +334,7 @@ func handlerGuard(fd *ast.FuncDecl, owner string) int {
 	if guardParam < 0 {
 		p.Die(be.Pos(), "%s: comparison on the peer field of unknown shape: %s", fd.Name.Name, p.Src(be))
 	}
-	return guardParam
+	return guardParam, &guardT{".entryPeer", ".sender"}
 }
 
 func contains(root ast.Node, target ast.Node) bool {
@@ -334,6 +364,139 @@ func tableKeys(fd *ast.FuncDecl) []string {
 		return true
 	})
 	return keys
+}
+
+// closerKind: how the per-stream message subscriber addresses the response it closes.
+//   .requestId    TerminateRequest(id) / CloseWithNetworkError(id) act on whatever is in the table under id
+//   .ownResponse  both carry the subscriber; the handlers of the two mailbox messages act only if the table
+//                 entry under id is the response that subscriber was created for (entry.<f> == sub, where
+//                 <f> is the field the new-request handler sets to the subscriber it gives the stream)
+// Found through the handle() methods that call the terminate / abort functions, recognised by shape.
+var tHandleTermPlain = gocanon.Template(`{ a0.«term»(rm.requestID) select { case <-a0.ctx.Done(): case rm.done <- struct{}{}: } }`)
+var tHandleTermOwn = gocanon.Template(`{ if a0.«chk»(rm.requestID, rm.«sub») { a0.«term»(rm.requestID) } select { case <-a0.ctx.Done(): case rm.done <- struct{}{}: } }`)
+var tHandleErrPlain = gocanon.Template(`{ l0 := a0.«abort»(a0.ctx, rm.requestID, rm.err) select { case <-a0.ctx.Done(): case rm.response <- l0: } }`)
+var tHandleErrOwn = gocanon.Template(`{ var l0 error = graphsync.RequestNotFoundErr{} if rm.«sub» == nil || a0.«chk»(rm.requestID, rm.«sub2») { l0 = a0.«abort»(a0.ctx, rm.requestID, rm.err) } select { case <-a0.ctx.Done(): case rm.response <- l0: } }`)
+var tIsResponseOf = gocanon.Template(`{ l0, l1 := rm.` + table + `[a0] return l1 && l0.«field» == a1 }`)
+
+func closerKind(elem string) string {
+	var it *ast.InterfaceType
+	for _, file := range p.Files {
+		ast.Inspect(file, func(n ast.Node) bool {
+			if ts, ok := n.(*ast.TypeSpec); ok && ts.Name.Name == "RequestCloser" {
+				if i, ok := ts.Type.(*ast.InterfaceType); ok {
+					it = i
+				}
+				return false
+			}
+			return true
+		})
+	}
+	if it == nil {
+		p.Die(token.NoPos, "interface RequestCloser not found")
+	}
+	sig := ""
+	for _, m := range it.Methods.List {
+		ft, ok := m.Type.(*ast.FuncType)
+		if !ok {
+			continue
+		}
+		var ts []string
+		for _, f := range ft.Params.List {
+			n := len(f.Names)
+			if n == 0 {
+				n = 1
+			}
+			for i := 0; i < n; i++ {
+				ts = append(ts, p.Src(f.Type))
+			}
+		}
+		this := strings.Join(ts, ",")
+		if sig != "" && sig != this {
+			p.Die(m.Pos(), "RequestCloser methods have different parameter lists: %s / %s", sig, this)
+		}
+		sig = this
+	}
+	// the two mailbox messages
+	var termH, errH *ast.FuncDecl
+	calleeHas := func(name, what string) bool {
+		fd := p.Method(mgrType, name)
+		return fd != nil && strings.Contains(p.Canon(fd), what)
+	}
+	for _, fd := range p.Methods("handle") {
+		c := p.Canon(fd)
+		for _, t := range []*regexp.Regexp{tHandleTermPlain, tHandleTermOwn} {
+			if m := gocanon.Match(t, c); m != nil && calleeHas(m["term"], "delete(rm."+table+", a0)") {
+				termH = fd
+			}
+		}
+		for _, t := range []*regexp.Regexp{tHandleErrPlain, tHandleErrOwn} {
+			if m := gocanon.Match(t, c); m != nil && calleeHas(m["abort"], ".ErrSignal <- ") {
+				errH = fd
+			}
+		}
+	}
+	if termH == nil || errH == nil {
+		p.Die(token.NoPos, "mailbox messages of TerminateRequest / CloseWithNetworkError not found (or of unknown shape)")
+	}
+	tc, ec := p.Canon(termH), p.Canon(errH)
+	switch sig {
+	case "graphsync.RequestID":
+		if gocanon.Match(tHandleTermPlain, tc) == nil || gocanon.Match(tHandleErrPlain, ec) == nil {
+			p.Die(termH.Pos(), "handlers of the closer messages have an unknown shape:\n  %s\n  %s", tc, ec)
+		}
+		return ".requestId"
+	case "graphsync.RequestID,*subscriber":
+		mt, me := gocanon.Match(tHandleTermOwn, tc), gocanon.Match(tHandleErrOwn, ec)
+		if mt == nil || me == nil {
+			p.Die(termH.Pos(), "handlers of the closer messages have an unknown shape:\n  %s\n  %s", tc, ec)
+		}
+		if mt["chk"] != me["chk"] || me["sub"] != me["sub2"] {
+			p.Die(termH.Pos(), "the two closer messages are guarded differently")
+		}
+		chk := method(mt["chk"], termH.Pos())
+		mc := gocanon.Match(tIsResponseOf, p.Canon(chk))
+		if mc == nil {
+			p.Die(chk.Pos(), "%s: unknown shape:\n  %s", chk.Name.Name, p.Canon(chk))
+		}
+		// the compared field must be the one the new-request handler sets to the subscriber of the stream
+		okField := false
+		for _, file := range p.Files {
+			ast.Inspect(file, func(n ast.Node) bool {
+				cl, ok := n.(*ast.CompositeLit)
+				if !ok || cl.Type == nil || p.Src(cl.Type) != elem {
+					return true
+				}
+				for _, e := range cl.Elts {
+					if kv, ok := e.(*ast.KeyValueExpr); ok && p.Src(kv.Key) == mc["field"] {
+						if id, ok := kv.Value.(*ast.Ident); ok && id.Obj != nil {
+							// that variable must be a *subscriber literal defined in the same function
+							if as, ok := id.Obj.Decl.(*ast.AssignStmt); ok && len(as.Rhs) == 1 && strings.HasPrefix(p.Src(as.Rhs[0]), "&subscriber{") {
+								okField = true
+							}
+						}
+					}
+				}
+				return true
+			})
+		}
+		if !okField {
+			p.Die(chk.Pos(), "%s compares field %q, which is not set to the response's own subscriber when the response is created", chk.Name.Name, mc["field"])
+		}
+		// and the subscriber must pass itself
+		for _, fd := range p.Methods("OnNext") {
+			if gocanon.RecvTypeName(fd) != "subscriber" {
+				continue
+			}
+			c := p.Canon(fd)
+			if strings.Count(c, ".TerminateRequest(rm.request.ID(), rm)") != 2 || strings.Count(c, ".CloseWithNetworkError(rm.request.ID(), rm)") != 1 ||
+				strings.Count(c, ".TerminateRequest(") != 2 || strings.Count(c, ".CloseWithNetworkError(") != 1 {
+				p.Die(fd.Pos(), "subscriber.OnNext does not pass itself (and its own request's ID) to the closer calls")
+			}
+		}
+		return ".ownResponse"
+	}
+	p.Die(it.Pos(), "RequestCloser parameter list %q not understood", sig)
+	return ""
 }
 
 func main() {
@@ -376,7 +539,7 @@ func main() {
 	}
 	c.loopVar = lv.Obj
 
-	loopGuard := false
+	var loopGuard *guardT
 	var sw *ast.SwitchStmt
 	for _, st := range loop.Body.List {
 		if gocanon.IsLogStmt(st) {
@@ -389,9 +552,11 @@ func main() {
 			sw = s
 			continue
 		}
-		if sw == nil && isGuardIf(st, c, false) {
-			loopGuard = true
-			continue
+		if sw == nil && loopGuard == nil {
+			if g := isGuardIf(st, c, false); g != nil {
+				loopGuard = g
+				continue
+			}
 		}
 		p.Die(st.Pos(), "unrecognised statement in the dispatch loop: %s", p.Src(st))
 	}
@@ -429,9 +594,11 @@ func main() {
 			if gocanon.IsLogStmt(b) {
 				continue
 			}
-			if call == nil && isGuardIf(b, c, true) {
-				ci.caseGuard = true
-				continue
+			if call == nil && ci.caseGuard == nil {
+				if g := isGuardIf(b, c, true); g != nil {
+					ci.caseGuard = g
+					continue
+				}
 			}
 			var e ast.Expr
 			switch s := b.(type) {
@@ -476,11 +643,11 @@ func main() {
 			p.Die(h.Pos(), "%s never looks at the response table", h.Name.Name)
 		}
 		ci.keyExpr = strings.Join(keys, ", ")
-		if gp := handlerGuard(h, owner); gp >= 0 {
+		if gp, g := handlerGuard(h, owner); gp >= 0 {
 			if gp != senderArg {
 				p.Die(call.Pos(), "case %s: %s guards on parameter #%d, which is not given the sender of the message", ci.typ, h.Name.Name, gp)
 			}
-			ci.handlerGuard = true
+			ci.handlerGuard = g
 		}
 		ci.handlerClass = classifyHandler(h) // (renames identifiers of h: keep last)
 		cases = append(cases, ci)
@@ -489,38 +656,7 @@ func main() {
 		p.Die(sw.Pos(), "expected cases for cancel, update and new requests, found %d", len(cases))
 	}
 
-	// RequestCloser (used by the per-stream message subscriber): by request ID only?
-	closerKey := ""
-	for _, file := range p.Files {
-		ast.Inspect(file, func(n ast.Node) bool {
-			ts, ok := n.(*ast.TypeSpec)
-			if !ok || ts.Name.Name != "RequestCloser" {
-				return true
-			}
-			it, ok := ts.Type.(*ast.InterfaceType)
-			if !ok {
-				return true
-			}
-			closerKey = ".requestId"
-			for _, m := range it.Methods.List {
-				ft, ok := m.Type.(*ast.FuncType)
-				if !ok {
-					continue
-				}
-				var ts []string
-				for _, f := range ft.Params.List {
-					ts = append(ts, p.Src(f.Type))
-				}
-				if strings.Join(ts, ",") != "graphsync.RequestID" {
-					closerKey = ".peerAndId"
-				}
-			}
-			return false
-		})
-	}
-	if closerKey == "" {
-		p.Die(token.NoPos, "interface RequestCloser not found")
-	}
+	closerKey := closerKind(elem)
 
 	fmt.Printf(`/-
 GENERATED by translate/respdispatch from responsemanager/*.go -- do not edit; regenerated by every check.
@@ -542,17 +678,25 @@ def keyKind : KeyKind := %s
 /-- how the per-stream message subscriber addresses a response (RequestCloser interface) -/
 def closerKey : KeyKind := %s
 
-/-- per request type: the handler called by the dispatch loop, and whether a peer guard
-    (entry.%s != sender => skip; at loop, case or handler level) protects it -/
+/-- per request type: the handler called by the dispatch loop and the peer guard that runs before it
+    (the first of: loop-level, case-level, handler-level), as written in the source: the request is
+    skipped if the table has an entry under its ID and lhs != rhs (entryPeer = field '%s' of that
+    entry, sender = the peer parameter of the entry point) -/
 def dispatch : List DispatchCase := [
 `, keyKind, closerKey, owner)
 	for i, ci := range cases {
-		g := loopGuard || ci.caseGuard || ci.handlerGuard
+		g := loopGuard
+		if g == nil {
+			g = ci.caseGuard
+		}
+		if g == nil {
+			g = ci.handlerGuard
+		}
 		sep := ","
 		if i == len(cases)-1 {
 			sep = ""
 		}
-		fmt.Printf("  { typ := %s, handler := %s, peerGuard := %v }%s\n", ci.typ, ci.handlerClass, g, sep)
+		fmt.Printf("  { typ := %s, handler := %s, guard := %s }%s\n", ci.typ, ci.handlerClass, g.lean(), sep)
 	}
 	fmt.Printf(`]
 
